@@ -50,7 +50,7 @@ func cGoid() int {
 
 // version stamp: a template [paddingOctets(a), paddingOctets(b)] stands for version a*50+b
 func cVersionOf(tr TemplateRecord) int {
-	if len(tr.ScopeFieldSpecifiers) == 2 { // options template: the version is in the scope fields, the option field is constant
+	if len(tr.ScopeFieldSpecifiers) == 3 { // options template: the version is in the scope fields, the option field is constant
 		return int(tr.ScopeFieldSpecifiers[0].Length)*50 + int(tr.ScopeFieldSpecifiers[1].Length)
 	}
 	if len(tr.FieldSpecifiers) != 2 {
@@ -88,7 +88,8 @@ func cVarTplMsg(id int) []byte {
 const cVarLen = 65535
 
 func cOptsMsg(id, a, b int) []byte {
-	rec := append(append(append(cU16(id), cU16(3)...), cU16(2)...), append(append(cU16(210), cU16(a)...), append(append(cU16(210), cU16(b)...), append(cU16(210), cU16(1)...)...)...)...)
+	// three scope fields (the version in the first two) and one option field
+	rec := append(append(append(cU16(id), cU16(4)...), cU16(3)...), append(append(cU16(210), cU16(a)...), append(append(cU16(210), cU16(b)...), append(append(cU16(210), cU16(1)...), append(cU16(210), cU16(1)...)...)...)...)...)
 	set := append(append(cU16(3), cU16(4+len(rec))...), rec...)
 	msg := append(append([]byte{0, 10}, cU16(16+len(set))...), make([]byte, 12)...)
 	return append(msg, set...)
@@ -125,7 +126,7 @@ func cObserved(msg *Message, err error) int {
 		return -1
 	}
 	r := msg.DataSets[0]
-	if len(r) != 2 && len(r) != 3 { // 3: an options template (two scope fields carrying the version, one option)
+	if len(r) != 2 && len(r) != 4 { // 4: an options template (three scope fields, the first two carrying the version, one option)
 		return -1
 	}
 	a, ok1 := r[0].Value.([]byte)
